@@ -178,6 +178,34 @@ def checkO (c : EncCase) (sizeCap : Option Nat) : Option String :=
     | some cap => if cap > wcap then some s!"{cls}needs-{cap}-but-{wcap}-suffices:witness:{hex cw}" else none
     | none => some s!"{cls}refused-but-{wcap}-suffices:witness:{hex cw}"
 
+/-- greedy ASCII codeword count (digit pairs 1, bytes >= 128 two, others one), written here independently of the models -/
+def plainAsciiLen : List Nat → Nat
+  | a :: b :: t =>
+    if 48 ≤ a ∧ a ≤ 57 ∧ 48 ≤ b ∧ b ≤ 57 then 1 + plainAsciiLen t
+    else (if a ≤ 127 then 1 else 2) + plainAsciiLen (b :: t)
+  | [a] => if a ≤ 127 then 1 else 2
+  | [] => 0
+
+/-- C10 / C16: a refusal is wrong when the header codewords followed by the plain ASCII (or plain Base 256)
+encodation of the body fit the largest listed symbol and that mode is enabled. For C16 (`macroOnly`) only
+enveloped messages are judged: there the refusal means that the message was not compacted although it should be. -/
+def checkRefusal (c : EncCase) (macroOnly : Bool) : Option String :=
+  let list := symbolList (maskList c.mask)
+  let cap := (list.map dataCw).foldl max 0
+  let mh := if c.macros ∧ !c.fnc1 then macroHeadOf c.input else 0
+  if macroOnly ∧ mh = 0 then none else
+  let body := if mh ≠ 0 then (c.input.drop 7).take (c.input.length - 9) else c.input
+  let pre := (if c.fnc1 then 1 else 0) + (if mh ≠ 0 then 1 else 0) +
+    (match c.eci with
+     | none => 0
+     | some e => if e ≤ 126 then 2 else if e ≤ 16382 then 3 else 4)
+  let n := body.length
+  if enabled c.modes 1 ∧ pre + plainAsciiLen body ≤ cap then
+    some s!"refused-although-plain-ascii-needs-{pre + plainAsciiLen body}-of-{cap}"
+  else if enabled c.modes 32 ∧ 0 < n ∧ n ≤ 1555 ∧ pre + 1 + (if n ≤ 249 then 1 else 2) + n ≤ cap then
+    some s!"refused-although-plain-base256-needs-{pre + 1 + (if n ≤ 249 then 1 else 2) + n}-of-{cap}"
+  else none
+
 def encOracle (flags : String) (c : EncCase) (resp : String) : String :=
   match parseResp resp with
   | .error e =>
@@ -189,8 +217,15 @@ def encOracle (flags : String) (c : EncCase) (resp : String) : String :=
       else if !empty ∧ resp ≠ "err:TooMuchOrIllegalData" then s!"fail:wrong-error {resp}"
       else "ok"
     else if flags.contains 'o' ∧ c.mask ≠ 0 then
-      match checkO c none with
+      match checkRefusal c false with
       | some m => s!"fail:o:{m}"
+      | none =>
+        match checkO c none with
+        | some m => s!"fail:o:{m}"
+        | none => "ok"
+    else if flags.contains 'a' ∧ c.mask ≠ 0 then
+      match checkRefusal c true with
+      | some m => s!"fail:a:{m}"
       | none => "ok"
     else "ok"
   | .ok (some r) =>
